@@ -20,12 +20,12 @@ SPEC = {
                  'EV.TxCache.stale_hit_counterexample', 'EV.TxCache.stale_hit_counterexample_merkle',
                  'EV.TxCache.C11_1_counterexample', 'EV.TxCache.C10_1_counterexample', 'EV.TxCache.C10_3_counterexample',
                  'EV.TxCache.tsc_sanity_counterexample', 'EV.TxCache.fifo_needed_counterexample',
-                 'EV.TxCache.C11_tx_binds'],
+                 'EV.TxCache.C11_tx_binds', 'EV.HeaderCache.C11_header_binds'],
     'suites': ['headercache', 'txcache', 'system'],
     'entry': {'system': 'run_proofs'},
     'design_ref': 'DESIGN.md §6 C11',
     'assumptions': [
-        'C11_tx_binds (EV/Props/C11bind.lean: the by-position answer is binding - no other tx id or branch of that length verifies at pos against the block\'s merkle root) carries the explicit hypothesis Collisionless H (H a b = H c d -> a = c and b = d), satisfied by the free term hash, NOT claimed for double-SHA256; it goes beyond the property text and no check outcome depends on it',
+        'C11_tx_binds / C11_header_binds (EV/Props/C11bind.lean: the by-position transaction answer and the header proof are binding - no other tx id or branch of that length verifies at pos against the block\'s merkle root) carries the explicit hypothesis Collisionless H (H a b = H c d -> a = c and b = d), satisfied by the free term hash, NOT claimed for double-SHA256; it goes beyond the property text and no check outcome depends on it',
         'header-proof replies: headers are modelled by their hashes (coin.header_hash, the leaves of the tree); the '
         'statement "the header of the reply IS the header at that height of the chain proven" (C11_reply_header) needs '
         'the hash to have no collision a fold could meet (predicate Cancel: H e a = H e b -> a = b and H a e = H b e -> '
